@@ -341,6 +341,7 @@ fn gen_ops(r: &mut Rng, bs: usize, maxops: usize) -> Vec<Op> {
     // generator-side bookkeeping: shadow lengths of live instances (None = consumed)
     let mut lens: Vec<Option<usize>> = vec![Some(0)];
     let mut total = 0usize;
+    let mut pages = 0;
     while ops.len() < n {
         let live: Vec<usize> = (0..lens.len()).filter(|&i| lens[i].is_some()).collect();
         if live.is_empty() {
@@ -349,6 +350,14 @@ fn gen_ops(r: &mut Rng, bs: usize, maxops: usize) -> Vec<Op> {
         let i = *r.pick(&live);
         let cur = lens[i].unwrap();
         match r.below(100) {
+            // now and then whole pages from a buffer of their own (allocated, hence 16-byte
+            // aligned), whatever the instance holds at that moment (a header, a partial block)
+            0..=1 if !cfg!(miri) && pages < 2 => {
+                pages += 1;
+                let len = [4096usize, 8192, 12288, 65536][r.below(4) as usize];
+                lens[i] = Some(cur + len);
+                ops.push(Op::Update(i, len));
+            }
             0..=59 => {
                 let fill = cur % bs;
                 let len = match r.below(14) {
